@@ -335,6 +335,8 @@ def rand_spec(rng, **force):
     # one run in six is preceded by another tree driven by the same sprout mechanism object (derived from the
     # seed, not drawn: the random stream of the generator stays what it was)
     spec["prior_tree"] = bool(force.get("prior_tree", spec["seed"] % 6 == 0))
+    if force.get("prior_gsc"):
+        spec["prior_gsc"] = True
     return spec
 
 
@@ -757,7 +759,9 @@ class Run:
         o = build(self.spec, self)
         self.objs = o
         if self.spec.get("prior_tree"):
-            prior_tree(self.spec, o["sm"])
+            # (every other time the earlier tree is also given the very stop-condition object: the shipped
+            # conditions are functions of the tree they are asked about)
+            prior_tree(self.spec, o["sm"], gsc=o["gsc"] if (self.spec["seed"] % 12 == 0 or self.spec.get("prior_gsc")) else None)
         for lvl, lc in enumerate(o["levels"]):
             lc.lsc = self._wrap_lsc(lc.lsc, lvl)
         cap = self.spec["max_steps"]
@@ -796,7 +800,7 @@ class Run:
             run.order.append(d.id)
             run.deme_objs[d.id] = d
             par = k.get("parent_deme")
-            run.ev.append(("NEW", d.id, d.level, None if par is None else par.id, d.started_at, type(d).__name__, None if k.get("sprout_seed") is None else ind_t(k["sprout_seed"]), [ind_t(i) for i in d.current_population], int(d.n_evaluations)))
+            run.ev.append(("NEW", d.id, d.level, None if par is None else par.id, d.started_at, type(d).__name__, None if k.get("sprout_seed") is None else ind_t(k["sprout_seed"]), [ind_t(i) for i in d.current_population], int(d.n_evaluations), None if getattr(d, "_sprout_seed", None) is None else ind_t(d._sprout_seed)))
             rm = d.run_metaepoch
 
             def run_me(tree, d=d, rm=rm):
@@ -863,7 +867,7 @@ class Run:
         return self
 
 
-def prior_tree(spec, sm, steps=5):
+def prior_tree(spec, sm, steps=5, gsc=None):
     """a user reusing one configured sprout mechanism object for several trees of a process: before the tree
     under observation is built, another tree of the same configuration (other seed, objects of its own) is
     driven by the very mechanism object.  Nothing of that earlier tree may show in the later one."""
@@ -879,7 +883,7 @@ def prior_tree(spec, sm, steps=5):
         with run_limit():
             o2 = build(spec2, None, plain="callable", reuse_sm=sm)
             opts = {"random_seed": spec2["seed"], "hibernation": spec2["hibernation"]}
-            t = T.DemeTree(TreeConfig(o2["levels"], o2["gsc"], sm, options=opts, config_class_to_deme_class=o2["custom"]))
+            t = T.DemeTree(TreeConfig(o2["levels"], gsc if gsc is not None else o2["gsc"], sm, options=opts, config_class_to_deme_class=o2["custom"]))
             k = 0
             while not t._gsc(t) and k < steps:
                 t.run_step()
@@ -1027,6 +1031,9 @@ def monitored_run(spec, pids):
         cb_b.append(M.c04_boundary(s4))
     if "C09" in pids:
         cb_b.append(M.c09_boundary(s9))
+    s5 = {"viol": []}
+    if "C05" in pids:
+        cb_b.append(M.c05_boundary(s5))
     s20 = {"viol": []}
     if "C20" in pids:
         cb_b.append(M.c20_boundary(s20))
@@ -1062,7 +1069,7 @@ def monitored_run(spec, pids):
     if "C04" in pids:
         res["C04"] = s4["viol"]
     if "C05" in pids:
-        res["C05"] = M.c05(run)
+        res["C05"] = M.c05(run) + s5["viol"]
     if "C06" in pids:
         res["C06"] = [v for v in M.c06(run) if v["signature"].startswith("C06")] + M.c06_cma_stops(run, h6["stops"])
     if "C07" in pids:
@@ -1215,6 +1222,42 @@ def nan_monitor_batch(ctx, pid, n, salt=53, name=None, force=None):
             sl.violations.append({"signature": v["signature"], "detail": v["detail"], "replay": {"spec": spec, "describe": d}})
         if i < 1:
             sl.sample({"spec": d, "metaepochs": r["steps"], "demes": r["demes"]})
+    return sl
+
+
+def level_boxes_batch(ctx, pid, n, salt):
+    """every level has a box of its own, the deeper one narrower than the parent's: a sprout seed may lie outside
+    its child's box.  Whatever the child does about that, the parent's recorded individual keeps its genome and
+    its fitness (monitors only)"""
+    from .common import Slice, pmap
+
+    rng = ctx.rng(salt)
+    n = ctx.boost(n) if hasattr(ctx, "boost") else n
+    specs = []
+    for _ in range(n):
+        spec = rand_spec(rng, nlev=2, engines={0: ["sea", "de", "shade", "ga"], 1: ["sea", "de", "local", "local"]}, objective=str(rng.choice(["four", "sphere"])), shared_problem=False,
+                              cutoff=None, precision_wrapper=None, stats_wrapper=False, gsc={"kind": "MetaepochLimit", "limit": int(rng.integers(3, 7))})
+        b = spec["bounds"]
+        inner = [[lo + 0.25 * (hi - lo) * float(rng.random() < 0.7), hi - 0.25 * (hi - lo) * float(rng.random() < 0.7)] for lo, hi in b]
+        spec["level_bounds"] = [b, inner]
+        width = float(min(hi - lo for lo, hi in inner))
+        for L in spec["levels"]:
+            L["sample_std_dev"] = 0.6 * width  # rejection sampling around a seed outside the child's box still terminates
+        spec["prior_tree"] = False
+        specs.append(spec)
+    sl = Slice(f"traced-runs-monitor-{pid}(a box of its own per level, the child's narrower)")
+    sl.is_trace = True
+    for spec, r in zip(specs, pmap(_monitor_worker, [(spec, pid, ()) for spec in specs], chunksize=2)):
+        if r["status"] != "ok":
+            sl.skipped += 1
+            sl.count("skipped:" + r["status"])
+            continue
+        sl.cases += 1
+        if len(r["demes"]) >= 2:
+            sl.nontrivial.add(spec_id(spec))
+        for v in r["viol"]:
+            if v["signature"].startswith(pid + "/"):
+                sl.violations.append({"signature": v["signature"], "detail": v["detail"], "replay": {"spec": spec}})
     return sl
 
 
